@@ -175,10 +175,14 @@ template <class T> struct CT { typedef T type; };
 	default: F<bool>(__VA_ARGS__); break; }
 
 template <class T, class S> static void w_scalar(S& s, const char* nat) { T v; memcpy(&v, nat, sizeof(T)); s << v; }
+static int g_arg_modified = -1; // index of the first element of the written array that changed under the write
 template <class T, class S> static void w_array(S& s, const char* nat, int n) {
 	asl::Array<T> a(n);
 	for (int j = 0; j < n; j++) memcpy(&a[j], nat + (size_t)j * sizeof(T), sizeof(T));
+	asl::Array<T> other = a; // a second handle to the same values, as a caller that keeps its data would have
 	s << a;
+	// the operator takes a const array: the values (seen through either handle) must be what they were, or the next write of them differs
+	for (int j = 0; j < n && g_arg_modified < 0; j++) if (memcmp(&other[j], nat + (size_t)j * sizeof(T), sizeof(T)) != 0 || memcmp(&a[j], nat + (size_t)j * sizeof(T), sizeof(T)) != 0) g_arg_modified = j;
 }
 template <class S> static void write_item(S& s, const Item& it, const std::string& nat) {
 	switch (it.kind) {
@@ -273,6 +277,12 @@ static void report_bytes(const char* ch, const Prepared& P, const std::string& g
 	vf::violation(sig, fmt("%s: item %d (%c:%s) wrote %s, expected %s; whole stream %d bytes, expected %d", ch, (int)i + 1, ORDCH[st.ord], st.it.name().c_str(),
 		clip(vf::hex(gi)).c_str(), clip(vf::hex(P.exp.substr(b, e - b))).c_str(), (int)got.size(), (int)P.exp.size()), kase);
 }
+static void check_arg(const char* ch, const Prepared& P, size_t i, const std::string& kase) {
+	if (g_arg_modified < 0) return;
+	const Step& st = P.seq[i];
+	vf::violation(fmt("%s.argument.%s.%s", ch, kindword(st.it), must_swap(st.ord) ? "swap" : "noswap"), fmt("%s: writing item %d (%c:%s) changed the caller's array (element %d differs after <<): a later write of the same array produces other bytes", ch, (int)i + 1, ORDCH[st.ord], st.it.name().c_str(), g_arg_modified), kase);
+	g_arg_modified = -1;
+}
 static void report_len(const char* ch, const Prepared& P, size_t i, long got, const std::string& kase) {
 	const Step& st = P.seq[i];
 	size_t b = i ? P.off[i - 1] : 0;
@@ -303,7 +313,7 @@ static void run_buf(const Prepared& P, const std::string& kase) {
 	asl::StreamBuffer& sb = *sbp;
 	for (size_t i = 0; i < q.size(); i++) {
 		if (i && q[i].ord != q[i - 1].ord) sb.setEndian(ORDASL[q[i].ord]);
-		write_item(sb, q[i].it, P.nat[i]);
+		write_item(sb, q[i].it, P.nat[i]); check_arg("buf", P, i, kase);
 		if (bytes_ok && (size_t)sb.length() != P.off[i]) { bytes_ok = false; report_len("buf", P, i, sb.length(), kase); }
 	}
 	if (asan_check("buf", "writing", kase)) bytes_ok = false;
@@ -362,7 +372,7 @@ static void run_file(const Prepared& P, const std::string& kase) {
 		if (q[0].ord != O_NATIVE) f.setEndian(ORDASL[q[0].ord]); else CNT(W_DEFAULT_ORD); // NATIVE is File's default
 		for (size_t i = 0; i < q.size(); i++) {
 			if (i && q[i].ord != q[i - 1].ord) f.setEndian(ORDASL[q[i].ord]);
-			write_item(f, q[i].it, P.nat[i]);
+			write_item(f, q[i].it, P.nat[i]); check_arg("file", P, i, kase);
 			if (bytes_ok && (size_t)f.position() != P.off[i]) { bytes_ok = false; report_len("file", P, i, (long)f.position(), kase); }
 		}
 	} // destructor closes
@@ -405,7 +415,7 @@ static void run_mem(const Prepared& P, const std::string& kase) {
 		if (q[0].ord != O_NATIVE) w.setEndian(ORDASL[q[0].ord]); else CNT(W_DEFAULT_ORD);
 		for (size_t i = 0; i < q.size(); i++) {
 			if (i && q[i].ord != q[i - 1].ord) w.setEndian(ORDASL[q[i].ord]);
-			write_item(w, q[i].it, P.nat[i]);
+			write_item(w, q[i].it, P.nat[i]); check_arg("mem", P, i, kase);
 			if (bytes_ok && pipe.data.size() != P.off[i]) { bytes_ok = false; report_len("mem", P, i, (long)pipe.data.size(), kase); }
 		}
 	}
@@ -447,7 +457,7 @@ static void run_pair(const Prepared& P, const std::string& kase) {
 		std::string got;
 		for (size_t i = 0; i < q.size(); i++) {
 			if (i && q[i].ord != q[i - 1].ord) w.setEndian(ORDASL[q[i].ord]);
-			write_item(w, q[i].it, P.nat[i]);
+			write_item(w, q[i].it, P.nat[i]); check_arg("pair", P, i, kase);
 			if (w.error() != 0 && (errno == EAGAIN || errno == EWOULDBLOCK)) { fprintf(stderr, "c16: socketpair send buffer exhausted in %s\n", kase.c_str()); _exit(2); }
 			drain(fd[1], got);
 			if (bytes_ok && got.size() != P.off[i]) { bytes_ok = false; report_len("pair", P, i, (long)got.size(), kase); }
